@@ -1,4 +1,5 @@
 #![allow(dead_code)]
+mod edit;
 mod gen;
 mod model;
 mod obs;
